@@ -1,52 +1,107 @@
 """C17 — shell output reproduces values exactly."""
+import os
 import re
 
 from .. import common as C
 
 ID = "C17"
 SRC_FACTS = ["shell_line_prefix", "shell_line_suffix", "env_pair_sep", "secret_placeholder",
-             "unknown_path_placeholder", "unknown_value_text", "shell_escaped_bytes"]
+             "unknown_path_placeholder", "unknown_value_text", "shell_escaped_bytes",
+             "get_render_pretend", "get_render_show_is_the_flag", "open_render_pretend", "open_render_show",
+             "render_shell_options_ok", "render_dotenv_options_ok"]
 COQ_SAMPLE = 100
-BATCH = 120
-RULE = ("render cases (environment -> real renderValue -> /bin/sh, bash, mvdan.cc/sh): regression corpus; EXHAUSTIVE: every "
-        "single byte 0x00-0xff as a value, all words of length 2 and 3 (thorough: 3 and 4) over the special alphabet "
-        "{\\ \" $ ` ' LF space a 0xff n}; random environments of 1-5 variables and 0-2 files whose values are built from "
-        "the property's character classes (spaces, quotes, backslashes, $, backquotes, newlines, control bytes, "
-        "non-ASCII, invalid UTF-8, expansion/substitution canaries), kinds string/number/bool/null/array/object, "
-        "secret and unknown flags, temp-file prefixes with special characters; malformed stream (invalid names, NUL "
-        "bytes: rendering compared only).  sh cases (validation of the Coq shell semantics against the three "
-        "interpreters): strconv.Quote-style scripts, random scripts over the fragment's grammar (double-quoted / "
-        "single-quoted / unquoted segments, escapes, continuations), one-byte mutations of rendered scripts.  "
-        "non-trivial = an in-scope render case with a value outside plain printable ASCII, or an sh case whose script "
-        "the semantics evaluates to a non-empty list of exports; distinct by case content")
+BATCH = 60
+# the handler scales its own per-interpreter budgets with a measured no-op (harness/cmd/implrun/c17.go); the driver's
+# per-batch limit only has to be out of the way of a loaded machine (a batch that exceeds it would be reported as a hang)
+IMPL_TIMEOUT = 3600
+RULE = ("render cases (environment -> the eight renderings, each produced TWICE: by the real commands `esc open --format shell`, "
+        "`esc env open --format dotenv`, `esc env get --value shell|dotenv` with and without `--show-secrets` driven in process "
+        "through cli.New with a fake backend, and by renderValue called directly -> /bin/sh, bash, mvdan.cc/sh; one wire line "
+        "`(both (render ..) (cli ..))` per case): regression corpus; EXHAUSTIVE: every single byte 0x00-0xff as a value, every byte "
+        "0x01-0xff in first / middle / last position of a value (thorough: also of a temporary file's path), all words of length 2 and 3 (thorough: 3 and 4) over the special "
+        "alphabet {\\ \" $ ` ' LF space a 0xff n}; value lengths 0, 1, 127, 128, 4095, 4096, 65535, 65536, 131072 (plain, special "
+        "bytes, all bytes; also as a hidden secret); 1, 2, 64, 1000 entries; multi-byte and invalid UTF-8; printf verbs (%s %! %% "
+        "trailing %) in values, secrets and temp-file paths; key collisions between environmentVariables and files; names that are "
+        "special in dash / bash / mvdan.cc/sh (as variable and as file key); random environments of 1-5 variables and 0-2 files "
+        "whose values are built from the property's character classes (spaces, quotes, backslashes, $, backquotes, newlines, "
+        "control bytes, non-ASCII, invalid UTF-8, expansion/substitution canaries), kinds string/number/bool/null/array/object, "
+        "secret and unknown flags, temp-file prefixes with special characters; malformed stream (invalid names, NUL bytes: rendering "
+        "compared only).  sh cases (validation of the Coq shell semantics against the three interpreters): strconv.Quote-style "
+        "scripts, random scripts over the fragment's grammar (double-quoted / single-quoted / unquoted segments, escapes, "
+        "continuations), one-byte mutations of rendered scripts, and the probe `export NAME=...` for 140 candidate special names "
+        "x 3 values (re-measures Model.Shell.*_special).  non-trivial = a render case that at least one interpreter, for which all "
+        "its names are ordinary, evaluated (both scripts) and that has a value outside plain printable ASCII, or an sh case whose "
+        "script the semantics evaluates to a non-empty list of exports and that an interpreter ran; distinct by case content")
 ASSUMPTIONS = [
-    "the environment reaches renderValue as an esc.Environment value (what the API client deserialises); the harness "
-    "builds it directly, so bytes that YAML/JSON transport cannot carry (invalid UTF-8) are covered as well",
-    "variable names are valid ([A-Za-z_][A-Za-z0-9_]*), pairwise distinct across environmentVariables and files, and "
-    "not variables the interpreter itself treats specially (Corr.C17.shell_magic_names: OPTIND, LINENO, PPID, UID, "
-    "PATH, IFS, LC_*, ...); values contain no NUL byte (an environment variable cannot hold one)",
-    "'evaluated' = the whole output is given to the interpreter as one script (sh -c \"$(esc open --format shell)\", "
-    "eval \"$(...)\", or sourcing a file); an unquoted eval $(...) re-splits the text before the shell parses it and "
-    "is not covered",
+    "the environment reaches the commands as an esc.Environment value (what the API client deserialises: the fake backend hands "
+    "it out as the result of CheckYAMLEnvironment / GetOpenEnvironmentWithProject, secrets in plaintext whatever flag it is "
+    "asked with); bytes that YAML/JSON transport cannot carry (invalid UTF-8) are covered as well",
+    "variable names are valid ([A-Za-z_][A-Za-z0-9_]*); values contain no NUL byte (an environment variable cannot hold one)",
+    "LIMIT OF THE TARGET SHELLS (documented, not a defect of esc; theorems C17_*_partial / C17_*_refuted): a name that the "
+    "interpreter itself treats specially cannot be exported faithfully by any quoting.  Measured, per interpreter "
+    "(Model.Shell.dash_special / bash_special / mvdan_special, re-measured by the probe family of every run, evidence "
+    "distribution.special_names): dash OPTIND; bash read-only UID EUID PPID BASHOPTS SHELLOPTS BASH_VERSINFO, computed "
+    "LINENO RANDOM SRANDOM SECONDS EPOCHSECONDS EPOCHREALTIME BASHPID BASH_COMMAND BASH_SUBSHELL HISTCMD _ PIPESTATUS, arrays/no-assign "
+    "GROUPS DIRSTACK FUNCNAME BASH_ALIASES BASH_CMDS BASH_LINENO BASH_SOURCE BASH_ARGC BASH_ARGV, validated OPTIND BASH_COMPAT "
+    "BASH_XTRACEFD LC_ALL LC_COLLATE LC_CTYPE LC_MESSAGES LC_NUMERIC LC_TIME; mvdan.cc/sh UID EUID GID DIRSTACK.  A case is "
+    "judged by every interpreter for which all its names are ordinary (counted: distribution.excused_special_name).  IFS, PATH, "
+    "PS1, PS2, PS4, PWD, OLDPWD, SHLVL, HOME, ENV, LANG, TZ, TERM, ... are exported exactly, with nothing else observable, by all "
+    "three: they are ordinary names here (that the shell then behaves differently is what exporting them means)",
+    "a key that is a scalar entry of both environmentVariables and files: known finding C17-file-shadows-variable",
+    "dash and bash are the reference interpreters; mvdan.cc/sh v3.7.0 is a third voice with parser quirks (drops backslash-CR-LF, "
+    "keeps the backslash of unquoted escapes, mis-reads an escaped backslash before another escape: its answer is not taken for "
+    "such scripts): where both reference interpreters were asked, answered and agree with what is demanded, a deviation of "
+    "mvdan.cc/sh alone is counted as an interpreter quirk (distribution.interpreter_quirks), never as a failure; where a "
+    "reference interpreter has no verdict (special name, skip), mvdan.cc/sh counts fully",
+    "'evaluated' = the whole output is given to the interpreter as one script (a file: `. <(esc open --format shell)`, "
+    "sh -c \"$(...)\", eval \"$(...)\"); an unquoted eval $(...) re-splits the text before the shell parses it and is not covered",
     "'no other effect' is observed as: exit status 0, nothing on stdout/stderr, no file appears in the (empty) working "
     "directory, no exported variable other than the environment's changes, no baseline variable disappears; for "
     "mvdan.cc/sh additionally no external command or file open is attempted and no unexported variable is set",
+    "'appear nowhere' (hidden secrets) is checked as independence: the hidden renderings of the environment and of the same "
+    "environment with every secret replaced by another value (different text, different length, no common 6-byte substring) are "
+    "byte-identical, through the commands and through renderValue",
     "the dotenv format keeps strconv.Quote; its rendering is modelled for values whose bytes are all < 0x80 and only "
-    "the redaction clause (independence of secret values) is checked for it on all values",
+    "the redaction clause is checked for it on all values",
+    "a value of 128 KiB cannot be passed to /usr/bin/env (Linux: 128 KiB per environment string): for scripts above 30 000 "
+    "bytes the trailer prints the case's variables with the shell's builtin printf and shortens values of more than 30 000 "
+    "characters before env runs (export status and all other variables are still read from env); the total environment stays "
+    "below ARG_MAX (a case carries at most three values above 64 KiB)",
 ]
 TRUSTED = [
-    "/bin/sh (dash), /bin/bash and mvdan.cc/sh v3 as reference POSIX shell interpreters; /usr/bin/env -0 to read the "
-    "resulting environment",
+    "/bin/sh (dash 0.5.12), /bin/bash (5.2.15) and mvdan.cc/sh v3.7.0 as reference POSIX shell interpreters; /usr/bin/env -0 "
+    "(and the builtin printf for oversize values) to read the resulting environment; scripts are evaluated from a file",
     "the POSIX `export NAME=word` semantics Model.Shell.sh_eval (hand-written from XCU 2.2; validated in every run: "
-    "whenever it answers Exports l on a generated or rendered script, each interpreter must have performed exactly l)",
-    "the in-memory escFS of the hook cmd/esc/cli/export_verif_c17.go (names temporary files <prefix>esc-<n>)",
+    "whenever it answers Exports l on a generated or rendered script without a name special to the interpreter, that "
+    "interpreter must have performed exactly l)",
+    "the in-memory escFS, login manager, workspace and fake backend client of the hook cmd/esc/cli/export_verif_c17.go and of "
+    "harness/cmd/implrun/c17.go (temporary files are named <prefix>esc-<n>)",
 ]
 
 ALPHA = [b"\\", b'"', b"$", b"`", b"'", b"\n", b" ", b"a", b"\xff", b"n"]
 
-MAGIC = {"OPTIND", "LINENO", "PPID", "UID", "EUID", "GROUPS", "BASHOPTS", "SHELLOPTS", "BASHPID", "RANDOM", "SECONDS",
-         "PWD", "OLDPWD", "SHLVL", "_", "IFS", "PATH", "ENV", "LANG", "TZ", "TERM", "HOME", "USER", "CANARY", "MAIL",
-         "TMOUT", "PS1", "PS2", "PS4"}
+def _coq_list(name):
+    """a `Definition <name> : list string := [...]` of Model/Shell.v (the single source of the special-name lists)"""
+    txt = open(os.path.join(C.VERIF, "coq", "Model", "Shell.v")).read()
+    m = re.search(r"Definition %s : list string :=\s*\[(.*?)\]\." % name, txt, re.S)
+    return re.findall(r'"([^"]*)"', m.group(1)) if m else []
+
+
+SPECIAL = {"dash": _coq_list("dash_special"), "bash": _coq_list("bash_special"), "mvdan": _coq_list("mvdan_special")}
+ALL_SPECIAL = sorted(set(sum(SPECIAL.values(), [])))
+
+# names that matter to a shell's own behaviour but are ordinary variables for `export` in all three interpreters
+ORDINARY_SUSPECTS = ["IFS", "PATH", "PS1", "PS2", "PS4", "PWD", "OLDPWD", "SHLVL", "HOME", "USER", "ENV", "BASH_ENV", "LANG",
+                     "LC_MONETARY", "TZ", "TERM", "MAIL", "MAILPATH", "CDPATH", "TMOUT", "POSIXLY_CORRECT", "HISTFILE", "HISTSIZE",
+                     "OPTARG", "OPTERR", "GLOBIGNORE", "REPLY", "SHELL", "TMPDIR", "COLUMNS", "LINES", "CANARY",
+                     "PROMPT_COMMAND", "BASH_ARGV0", "COMP_WORDBREAKS", "FUNCNEST", "IGNOREEOF", "INPUTRC", "NLSPATH"]
+
+PROBE_NAMES = sorted(set(ALL_SPECIAL + ORDINARY_SUSPECTS + """MAILCHECK HISTFILESIZE BASH_LOADABLES_PATH EXECIGNORE FIGNORE BASH
+BASH_VERSION HOSTNAME HOSTTYPE MACHTYPE OSTYPE BASH_REMATCH BASH_EXECUTION_STRING COMP_LINE COMP_POINT COMP_KEY COMP_TYPE COMP_CWORD
+COMP_WORDS COMPREPLY COPROC READLINE_LINE LANGUAGE HISTCONTROL HISTIGNORE HISTTIMEFORMAT HOSTFILE PROMPT_DIRTRIM PS0 PS3 TIMEFORMAT
+auto_resume histchars FCEDIT EDITOR VISUAL CHILD_MAX EMACS INSIDE_EMACS MAPFILE LC_TIME LC_PAPER LC_NAME LC_ADDRESS LC_TELEPHONE
+LC_MEASUREMENT LC_IDENTIFICATION PLAIN_NAME x X1 __ a_b""".split()))
+PROBE_VALUES = [b"v a l", b"7", b""]
 
 CORPUS = [
     b"$HOME", b"a\nb", b"pa$$w0rd", b"`touch pwned`", b"$(touch pwned)", b"${CANARY}", b"$CANARY", b"\x1b[31mred\x1b[0m",
@@ -79,10 +134,31 @@ def H(b):
     return b.hex()
 
 
+def _shares(a, b, n=6):
+    """a and b have a common substring of n bytes"""
+    if len(a) < n or len(b) < n:
+        return False
+    grams = {a[i:i + n] for i in range(len(a) - n + 1)}
+    return any(b[i:i + n] in grams for i in range(len(b) - n + 1))
+
+
 def var(k, v, kind="str", secret=False, unknown=False, alt=None):
     e = {"k": H(k), "kind": kind, "v": H(v), "secret": secret, "unknown": unknown}
     if secret:
-        e["alt"] = H(alt if alt is not None else (b"ALT-" + v[::-1] + b"-other"))
+        # the OTHER secret value of the independence clause (Corr.C17.redaction_fail): a different text of a different
+        # length that shares no 6-byte substring with the value, so that nothing derived from the value can hide
+        if kind == "bool":
+            alt = b"false" if v == b"true" else b"true"
+        elif kind == "num":
+            alt = b"777" if v != b"777" else b"12345"
+        elif kind != "null":
+            if alt is None:
+                alt = b"ALT-" + v[::-1] + b"-other"
+            if alt == v or len(alt) == len(v) or _shares(v[:4096], alt[:4096]):
+                alt = (b"#0ther~" * (len(v) // 7 + 2))[:len(v) + 3]
+                if _shares(v[:4096], alt[:4096]):
+                    alt = (b"%Alt3rn@tive^" * (len(v) // 13 + 2))[:len(v) + 5]
+        e["alt"] = H(alt if alt is not None else b"")
     return e
 
 
@@ -93,10 +169,8 @@ def render_case(vars_, files=(), prefix=b"/tmp/", tag=""):
 def gen_name(rng):
     first = "ABCDEFGHIJKLMNOPQRSTUVWXYZabcdefghijklmnopqrstuvwxyz_"
     rest = first + "0123456789"
-    while True:
-        n = rng.choice(first) + "".join(rng.choice(rest) for _ in range(rng.below(8)))
-        if n not in MAGIC and not n.startswith(("BASH", "LC_", "COMP", "HIST")):
-            return n.encode()
+    # any valid name: whether an interpreter treats it specially is decided per interpreter by Corr.C17.in_scope
+    return (rng.choice(first) + "".join(rng.choice(rest) for _ in range(rng.below(8)))).encode()
 
 
 def gen_value(rng, maxseg=6):
@@ -165,6 +239,15 @@ def go_quote_ascii(v):
     return (out + '"').encode()
 
 
+# scripts on which the interpreters once disagreed among themselves (kept forever)
+SH_REGRESSIONS = [
+    b'export r="\\\r\n"',            # VERIF_SEED=2 thorough: mvdan.cc/sh drops backslash-CR-LF, dash and bash keep the three bytes
+    b'export r="\\\r\n"\n', b"export r='\\\r\n'\n", b'export r="a\\\rb"\n', b'export r="\\\\\r\n"\n', b'export r=\\\r\n',
+    b'export A=\\"x\n',               # mvdan.cc/sh keeps the backslash of an unquoted escape
+    b'export A="\\\\\\$"\n',          # mvdan.cc/sh: escaped backslash before an escaped dollar
+]
+
+
 def sh_case(script, tag):
     names = sorted(set(re.findall(rb"export ([A-Za-z_][A-Za-z0-9_]*)=", script)))
     return {"op": "sh", "script": H(script), "names": [H(n) for n in names], "tag": tag}
@@ -220,7 +303,82 @@ def model_render(pairs):
     return out
 
 
-def gen(rng, tier):
+UTF8 = [
+    "\u00e9".encode(), "\u65e5\u672c\u8a9e".encode(), "\U0001f511\U0001f1e9\U0001f1ea".encode(), "e\u0301 a\u030a".encode(),
+    "\u05e9\u05dc\u05d5\u05dd \u0645\u0631\u062d\u0628\u0627".encode(), "\ufeffbom".encode(), "line\u2028sep\u2029par".encode(),
+    "nel\u0085nbsp\u00a0".encode(), "\u202eright-to-left override".encode(), "\U0010ffff\uffff\ufffd".encode(), "\u0000".encode()[:0] + b"\xc2\x80",
+    b"\xc0\xaf", b"\xe0\x80\xaf", b"\xf0\x80\x80\xaf", b"\xed\xa0\x80\xed\xb0\x80", b"\xf4\x90\x80\x80", b"\xc3", b"\xe6\x97", b"\xf0\x9f\x94",
+    b"\x80", b"\xbf\xbf", b"\xfe", b"\xff", b"\xfe\xff\x00a"[:2], b"ok\xc3\xa9\xffbad\xc3", b"\xc3\x28", b"\xe2\x28\xa1", b"a\xa0b\x85c",
+]
+PERCENT = [b"%s", b"%!", b"%%", b"100%", b"%", b"%v", b"%d items", b"p%40ss%w0rd", b"%[1]v %[2]v", b"%!s(MISSING)", b"%Y-%m-%d", b"50%% off",
+           b"%x%X%o%c%q%U%e%t%p%T", b"% d", b"%-5s|%05d|%+.2f", b"%*d", b"%!(EXTRA string=x)", b"trailing\n%", b"%\n", b'"%"', b"$%`%\\%"]
+
+SIZES = [0, 1, 127, 128, 4095, 4096, 65535, 65536, 131072]
+SPECIAL_CYCLE = b'a$`"\\\n\'% \xc3\xa9\xff\t;&|<>(){}*?[]~#!=\r\x01\x7f'
+
+
+def sized(pattern, n):
+    if n == 0:
+        return b""
+    return (pattern * (n // len(pattern) + 1))[:n]
+
+
+def gen_sizes(thorough):
+    out = []
+    allbytes = bytes(range(1, 256))
+    for n in SIZES:
+        out.append(render_case([var(b"SZ", sized(SPECIAL_CYCLE, n))], tag="size"))
+        if thorough or n in (0, 1, 128, 4096, 65536):
+            out.append(render_case([var(b"SZ", sized(b"a", n))], tag="size"))
+            out.append(render_case([var(b"SZ", sized(allbytes, n))], tag="size"))
+        if thorough or n in (127, 4095, 131072):
+            # the same length as a hidden secret and as the content of a temporary file, next to a small public value
+            out.append(render_case([var(b"SZ_SECRET", sized(b"s3cr3t-" + SPECIAL_CYCLE, n), secret=True, alt=sized(b"0ther-" + SPECIAL_CYCLE, n)),
+                                    var(b"PUBLIC", b"p")], [var(b"SZ_FILE", sized(SPECIAL_CYCLE, n))], tag="size"))
+    # values whose rendering straddles the sizes (every special byte doubles)
+    for n in (64, 2048, 32768, 65536):
+        out.append(render_case([var(b"SZ", sized(b'$`"\\', n))], tag="size"))
+    # a backslash / quote exactly at the end of a long value
+    for tail in (b"\\", b'"', b"$", b"`", b"\n", b"%"):
+        out.append(render_case([var(b"SZ", sized(b"x", 4095) + tail)], tag="size"))
+    return out
+
+
+def gen_many(rng, thorough):
+    out = []
+    for n in (1, 2, 64, 1000):
+        for rep in range(2 if (thorough or n < 1000) else 1):
+            names = []
+            seen = set()
+            while len(names) < n + 3:
+                k = gen_name(rng) + (b"_%d" % len(names) if n > 64 else b"")
+                if k not in seen and k.decode() not in ALL_SPECIAL:
+                    seen.add(k)
+                    names.append(k)
+            nfiles = 0 if rep == 0 else 3
+            vs = [gen_entry(rng, k) for k in names[:n]]
+            fs = [gen_entry(rng, k, allow_flags=False) for k in names[n:n + nfiles]]
+            out.append(render_case(vs, fs, tag="entries%d" % n))
+    return out
+
+
+def gen_collisions():
+    out = []
+    K = b"SHARED"
+    for vkind, fkind in (("str", "str"), ("num", "str"), ("str", "bool"), ("null", "null")):
+        out.append(render_case([var(K, b"value of the variable" if vkind == "str" else b"3.14", vkind)],
+                               [var(K, b"content of the file" if fkind == "str" else b"true", fkind)], tag="collision"))
+    out.append(render_case([var(K, b"hidden value", secret=True, alt=b"other hidden")], [var(K, b"file")], tag="collision"))
+    out.append(render_case([var(b"A", b"a $x"), var(K, b"v"), var(b"Z", b"z`")], [var(b"F", b"f"), var(K, b"c")], tag="collision"))
+    out.append(render_case([var(b"A", b"a"), var(b"B", b"b"), var(b"C", b"c")], [var(b"B", b"1"), var(b"C", b"2"), var(b"D", b"3")], tag="collision"))
+    # no collision of SCALAR entries: the property must hold for every name
+    out.append(render_case([var(K, b"v")], [var(K, b"c", "obj")], tag="collision:none"))
+    out.append(render_case([var(K, b"v", "arr")], [var(K, b"c")], tag="collision:none"))
+    out.append(render_case([var(K, b"v")], [var(K + b"_", b"c")], tag="collision:none"))
+    return out
+
+
+def _gen_all(rng, tier):
     thorough = tier == "thorough"
     cases = []
     # --- regression corpus first --------------------------------------------------------------------------------
@@ -246,9 +404,48 @@ def gen(rng, tier):
                 w += alpha[x % len(alpha)]
                 x //= len(alpha)
             cases.append(render_case([var(b"W", w)], tag="word%d" % n))
+    # all words up to length 3 (thorough: 4) over {backslash, CR, LF, double quote, a}: CR next to backslash and newline
+    cr_alpha = [b"\\", b"\r", b"\n", b'"', b"a"]
+    for n in ((1, 2, 3, 4) if thorough else (1, 2, 3)):
+        for idx in range(len(cr_alpha) ** n):
+            w, x = b"", idx
+            for _ in range(n):
+                w += cr_alpha[x % len(cr_alpha)]
+                x //= len(cr_alpha)
+            cases.append(render_case([var(b"W", w)], tag="crword"))
     # secrets: every single special byte as a hidden secret
     for a in ALPHA:
         cases.append(render_case([var(b"S", b"s3cr3t" + a + b"x", secret=True, alt=b"other" + a)], tag="secret"))
+    # every byte 0x01-0xff in first / middle / last position of a value (exhaustive)
+    for b in range(1, 256):
+        x = bytes([b])
+        cases.append(render_case([var(b"P_FIRST", x + b"mid"), var(b"P_MID", b"ab" + x + b"cd"), var(b"P_LAST", b"end" + x)], tag="bytepos"))
+    # ... and in the path of a temporary file (the directory of the in-memory file system carries the byte)
+    for b in (range(1, 256) if thorough else [9, 10, 32, 34, 36, 37, 39, 92, 96, 127, 128, 255]):
+        x = bytes([b])
+        cases.append(render_case([var(b"V", b"v")], [var(b"F_FIRST", b"c1"), var(b"F_SECOND", b"c2")], prefix=x + b"tmp" + x + b"dir/" + x, tag="pathbyte"))
+    # --- sizes -----------------------------------------------------------------------------------------------------
+    cases += gen_sizes(thorough)
+    # --- number of entries ------------------------------------------------------------------------------------------
+    cases += gen_many(rng.fork("many"), thorough)
+    # --- UTF-8 (multi-byte, invalid) and printf verbs -------------------------------------------------------------------
+    for v in UTF8:
+        cases.append(render_case([var(b"U", v), var(b"U_Q", b'"' + v + b"$" + v + b"\\")], tag="utf8"))
+    for v in PERCENT:
+        cases.append(render_case([var(b"PCT", v), var(b"PCT_S", b"tok" + v + b"en%", secret=True, alt=b"o%ther" + v)],
+                                 [var(b"PCT_F", b"content " + v)], prefix=b"/tmp/100%/" + v.replace(b"/", b"_").replace(b"\n", b"_") + b"/",
+                                 tag="percent"))
+        cases.append(render_case([var(b"PCT", v)], tag="percent"))
+    # --- a key in both environmentVariables and files (known finding C17-file-shadows-variable) ----------------------------
+    cases += gen_collisions()
+    # --- names an interpreter treats specially, and names that only look special ------------------------------------------
+    for n in ALL_SPECIAL + ORDINARY_SUSPECTS:
+        k = n.encode()
+        for v in (b"v a l", b"7"):
+            cases.append(render_case([var(k, v), var(b"OTHER", b"w $x")], tag="name:" + ("special" if n in ALL_SPECIAL else "ordinary")))
+        cases.append(render_case([var(b"OTHER", b"w")], [var(k, b"content")], tag="name:" + ("special" if n in ALL_SPECIAL else "ordinary")))
+    cases.append(render_case([var(b"IFS", b" \t\n"), var(b"PATH", b"/opt/x y/bin:/usr/bin"), var(b"PS1", b"\\u@\\h \\$ "), var(b"A", b"a b")],
+                             tag="name:ordinary"))
     # --- random structured stream --------------------------------------------------------------------------------
     r = rng.fork("render")
     for _ in range(6000 if thorough else 450):
@@ -272,6 +469,8 @@ def gen(rng, tier):
         cases.append(c)
     # --- validation of the shell semantics ----------------------------------------------------------------------------
     s = rng.fork("sh")
+    for script in SH_REGRESSIONS:
+        cases.append(sh_case(script, "regression"))
     for v in CORPUS:
         if all(b < 128 for b in v):
             cases.append(sh_case(b"export K=" + go_quote_ascii(v) + b"\n", "goquote"))
@@ -297,11 +496,41 @@ def gen(rng, tier):
         if b"\x00" in script:
             continue
         cases.append(sh_case(bytes(script), "mutated"))
+    # probe: which names does an interpreter treat specially? (re-measures Model.Shell.*_special; see distribution)
+    for n in PROBE_NAMES:
+        for v in PROBE_VALUES:
+            for pre, post in ((b"", b""), (b'export VERIF_BEFORE="1"\n', b'export VERIF_AFTER="2"\n')):
+                cases.append(dict(sh_case(pre + b"export " + n.encode() + b'="' + v + b'"\n' + post, "probe"), probe=[n, H(v), bool(pre)]))
     return cases
 
 
+def _weight(c):
+    if c["op"] != "render":
+        return len(c["script"]) // 2
+    return sum(len(e["v"]) // 2 + 40 for e in c["vars"] + c["files"])
+
+
+def gen(rng, tier):
+    """the cases of _gen_all with the heavy ones (long values, many entries) spread evenly over the list: the runners
+    split the list into contiguous chunks, one process each"""
+    cases = _gen_all(rng, tier)
+    heavy = [c for c in cases if _weight(c) >= 4096]
+    light = [c for c in cases if _weight(c) < 4096]
+    if not heavy:
+        return cases
+    heavy.sort(key=_weight, reverse=True)
+    # the regression corpus stays first (the driver shrinks the FIRST failing case: a small one shrinks in seconds)
+    head = 60
+    out, step = light[:head], max(1, len(light[head:]) // len(heavy))
+    for i, c in enumerate(light[head:]):
+        if i % step == 0 and heavy:
+            out.append(heavy.pop(0))
+        out.append(c)
+    return out + heavy
+
+
 def prepare(c):
-    q = {k: v for k, v in c.items() if k != "tag"}
+    q = {k: v for k, v in c.items() if k not in ("tag", "probe")}
     return q
 
 
@@ -326,18 +555,54 @@ def _sh3(o):
     return "(%s %s %s)" % (_obs(o.get("dash")), _obs(o.get("bash")), _obs(o.get("mvdan")))
 
 
-OUTS = ["open_shell", "get_shell_red", "get_shell_red_alt", "get_shell_show", "open_dotenv", "get_dotenv_red", "get_dotenv_red_alt"]
+OUTS = ["open_shell", "get_shell_red", "get_shell_red_alt", "get_shell_show", "open_dotenv", "get_dotenv_red", "get_dotenv_red_alt",
+        "get_dotenv_show"]
+KINDS = [("direct", "render"), ("cli", "cli")]
+
+
+def _skips(o):
+    """reasons why an interpreter gave no verdict, over the interpreter runs of one case ([] = somebody answered)"""
+    groups = []
+    if "sh" in o:
+        groups.append(o.get("sh"))
+    for kind, _ in KINDS:
+        k = o.get(kind) or {}
+        groups += [k.get("open_sh"), k.get("red_sh")]
+    reasons = []
+    for g in groups:
+        for name in ("dash", "bash", "mvdan"):
+            x = (g or {}).get(name)
+            if not isinstance(x, dict) or "skip" not in x:
+                if isinstance(x, dict) and "fin" in x:
+                    return []
+                reasons.append("missing")
+            else:
+                reasons.append(x["skip"])
+    return reasons
+
+
+def _render_part(c, k, word):
+    return "(%s x%s (%s) (%s) (%s) %s %s)" % (
+        word, c["prefix"], " ".join(_entry(e) for e in c["vars"]), " ".join(_entry(e) for e in c["files"]),
+        " ".join("x" + k[n] for n in OUTS), _sh3(k.get("open_sh")), _sh3(k.get("red_sh")))
 
 
 def line(c, o):
     if "panic" in o or "crash" in o or "error" in o:
         return "(crash)"  # no verdict: reported as a broken correspondence by the driver
+    reasons = _skips(o)
+    if reasons and not any(r == "nul" for r in reasons):
+        # no interpreter gave a verdict and the reason is not a NUL byte (outside the property): the case was not
+        # judged at all.  It is counted by the driver as skipped and by distribution(); it is never a pass.
+        return None
     if c["op"] == "render":
-        if any((k + "_err") in o for k in OUTS) or any(k not in o for k in OUTS):
-            return "(crash)"
-        return "(render x%s (%s) (%s) (%s) %s %s)" % (
-            c["prefix"], " ".join(_entry(e) for e in c["vars"]), " ".join(_entry(e) for e in c["files"]),
-            " ".join("x" + o[k] for k in OUTS), _sh3(o.get("open_sh")), _sh3(o.get("red_sh")))
+        parts = []
+        for kind, word in KINDS:
+            k = o.get(kind)
+            if not isinstance(k, dict) or any((n + "_err") in k for n in OUTS) or any(n not in k for n in OUTS):
+                return "(crash)"
+            parts.append(_render_part(c, k, word))
+        return "(both %s)" % " ".join(parts)
     if c["op"] == "sh":
         return "(sh x%s %s)" % (c["script"], _sh3(o.get("sh")))
     return None
@@ -354,23 +619,44 @@ def shrink(c):
             yield sh_case(s[:i] + s[i + 1:], c.get("tag", ""))
         return
     for key in ("vars", "files"):
-        for i in range(len(c[key])):
+        n = len(c[key])
+        if n > 16:
+            # long lists: drop halves, quarters, eighths (never one entry at a time: every candidate is a full evaluation)
+            for parts in (2, 4, 8):
+                size = n // parts
+                for j in range(parts):
+                    d = dict(c)
+                    d[key] = c[key][:j * size] + c[key][(j + 1) * size:]
+                    yield d
+            continue
+        for i in range(n):
             d = dict(c)
             d[key] = c[key][:i] + c[key][i + 1:]
             yield d
     if c["prefix"] != H(b"/tmp/"):
         yield dict(c, prefix=H(b"/tmp/"))
     for key in ("vars", "files"):
+        if len(c[key]) > 16:
+            continue
         for i, e in enumerate(c[key]):
             v = bytes.fromhex(e["v"])
             cands = []
             if len(v) > 1:
                 cands += [v[: len(v) // 2], v[len(v) // 2:]]
-            cands += [v[:j] + v[j + 1:] for j in range(min(len(v), 12))]
+            if 64 < len(v) <= 16384:
+                cands += [v[: len(v) * 3 // 4], v[len(v) // 4:], v[: len(v) * 7 // 8]]
+            if len(v) <= 256:
+                cands += [v[:j] + v[j + 1:] for j in range(min(len(v), 12))]
             for w in cands:
                 d = dict(c)
                 d[key] = c[key][:i] + [dict(e, v=H(w))] + c[key][i + 1:]
                 yield d
+            if e.get("secret") and "alt" in e:
+                a = bytes.fromhex(e["alt"])
+                for w in ([a[: len(a) // 2], a[len(a) // 2:], a[: len(a) * 3 // 4]] if len(a) > 8 else []):
+                    d = dict(c)
+                    d[key] = c[key][:i] + [dict(e, alt=H(w))] + c[key][i + 1:]
+                    yield d
             if e.get("secret") or e.get("unknown"):
                 d = dict(c)
                 d[key] = c[key][:i] + [dict(e, secret=False, unknown=False)] + c[key][i + 1:]
@@ -414,20 +700,97 @@ def _classes_of(v):
     return out
 
 
+_NAME = re.compile(rb"^[A-Za-z_][A-Za-z0-9_]*$")
+
+
+def _scalar_names(c):
+    return [bytes.fromhex(e["k"]) for key in ("vars", "files") for e in c[key] if e["kind"] not in ("arr", "obj")]
+
+
+def _probe_matrix(cases, obs):
+    """what `export NAME="..."` did in each interpreter, for the probe family: per name and interpreter `exact` or the
+    deviations seen over the probe values"""
+    m = {}
+    for c, o in zip(cases, obs):
+        if c["op"] != "sh" or c.get("tag") != "probe":
+            continue
+        name, val = c["probe"][0], bytes.fromhex(c["probe"][1])
+        others = {b"VERIF_BEFORE": b"1", b"VERIF_AFTER": b"2"} if c["probe"][2] else {}
+        for sh in ("dash", "bash", "mvdan"):
+            x = (o.get("sh") or {}).get(sh) or {}
+            if "skip" in x:
+                what = "skip:" + x["skip"]
+            elif not x.get("fin"):
+                what = "aborted"
+            else:
+                got = {bytes.fromhex(a): bytes.fromhex(b) for a, b in x.get("vars") or []}
+                want = dict(others)
+                want[name.encode()] = val
+                if got == want:
+                    what = "exact" if x.get("clean") else "exact+diagnostic"
+                elif name.encode() not in got:
+                    what = "not-exported" if x.get("clean") else "refused+diagnostic"
+                else:
+                    what = "other-value" if x.get("clean") else "other-value+diagnostic"
+            m.setdefault(name, {}).setdefault(sh, set()).add(what)
+    return m
+
+
 def distribution(cases, r):
-    d = {"cases_by_family": {}, "values_total": 0, "values_by_class": {}, "interpreter_runs": {}, "sh_cases_semantics_says_exports": 0}
+    d = {"cases_by_family": {}, "values_total": 0, "values_by_class": {}, "interpreter_runs": {}, "sh_cases_semantics_says_exports": 0,
+         "render_lines": {"direct(renderValue)": 0, "cli(commands)": 0},
+         "value_length_max": 0, "entries_max": 0,
+         "render_cases_judged_by_n_interpreters": {"0": 0, "1": 0, "2": 0, "3": 0},
+         "no_interpreter_verdict": {}, "not_judged_and_not_counted_as_cases": 0,
+         "excused_special_name": {"dash": 0, "bash": 0, "mvdan": 0},
+         "outside_property": {"invalid_name": 0, "nul_byte": 0},
+         "known_class_file_shadows_variable": 0, "timeout_under_load_skips": 0, "noop_ms_max": {}}
     nontriv = set(r["nontrivial"])
+    known = set(r["spec_fail_known"])
     for i, (c, o) in enumerate(zip(cases, r["obs"])):
         fam = c["op"] + ":" + c.get("tag", "")
         d["cases_by_family"][fam] = d["cases_by_family"].get(fam, 0) + 1
+        reasons = _skips(o)
+        if reasons:
+            for x in sorted(set(reasons)):
+                d["no_interpreter_verdict"][x] = d["no_interpreter_verdict"].get(x, 0) + 1
+            if not any(x == "nul" for x in reasons):
+                d["not_judged_and_not_counted_as_cases"] += 1
+        for who, us in (o.get("noop_us") or {}).items():
+            d["noop_ms_max"][who] = max(d["noop_ms_max"].get(who, 0), round(us / 1000.0, 1))
         if c["op"] == "render":
+            d["entries_max"] = max(d["entries_max"], len(c["vars"]) + len(c["files"]))
             for e in c["vars"]:
                 if e["kind"] in ("arr", "obj"):
                     continue
                 d["values_total"] += 1
+                d["value_length_max"] = max(d["value_length_max"], len(e["v"]) // 2)
                 for cl in _classes_of(bytes.fromhex(e["v"])):
                     d["values_by_class"][cl] = d["values_by_class"].get(cl, 0) + 1
-            groups = [o.get("open_sh"), o.get("red_sh")]
+            groups = []
+            for kind, label in (("direct", "direct(renderValue)"), ("cli", "cli(commands)")):
+                k = o.get(kind)
+                if isinstance(k, dict):
+                    d["render_lines"][label] += 1
+                    groups += [k.get("open_sh"), k.get("red_sh")]
+            names = _scalar_names(c)
+            valid = all(_NAME.match(n) for n in names)
+            nul = any(b"\x00" in bytes.fromhex(e["v"]) for e in c["vars"] if e["kind"] not in ("arr", "obj")) or b"\x00" in bytes.fromhex(c["prefix"])
+            if not valid:
+                d["outside_property"]["invalid_name"] += 1
+            elif nul:
+                d["outside_property"]["nul_byte"] += 1
+            else:
+                judges = 0
+                for sh in ("dash", "bash", "mvdan"):
+                    if any(n.decode() in SPECIAL[sh] for n in names):
+                        d["excused_special_name"][sh] += 1
+                    elif all(isinstance(((o.get(kind) or {}).get(g) or {}).get(sh), dict) and "fin" in o[kind][g][sh]
+                             for kind in ("direct", "cli") for g in ("open_sh", "red_sh")):
+                        judges += 1
+                d["render_cases_judged_by_n_interpreters"][str(judges)] += 1
+            if i in known:
+                d["known_class_file_shadows_variable"] += 1
         else:
             groups = [o.get("sh")]
             if i in nontriv:
@@ -437,13 +800,63 @@ def distribution(cases, r):
                 x = (g or {}).get(name) or {}
                 k = name + (":skipped(" + x["skip"] + ")" if "skip" in x else ":run")
                 d["interpreter_runs"][k] = d["interpreter_runs"].get(k, 0) + 1
+                if x.get("skip") == "timeout-under-load":
+                    d["timeout_under_load_skips"] += 1
+    # interpreter quirks: scripts on which mvdan.cc/sh answered differently from dash and bash, which agree (never a failure
+    # by itself: Corr.C17.deviates); the first ten are listed so that they can be added to SH_REGRESSIONS
+    q = {"mvdan_differs_while_dash_and_bash_agree": 0, "dash_and_bash_differ": 0, "scripts": [], "scripts_dash_bash": []}
+    seen = set()
+    for c, o in zip(cases, r["obs"]):
+        pairs = []
+        if c["op"] == "sh":
+            pairs.append((c["script"], o.get("sh")))
+        else:
+            for kind in ("direct", "cli"):
+                k = o.get(kind) or {}
+                pairs += [(k.get("open_shell"), k.get("open_sh")), (k.get("get_shell_red"), k.get("red_sh"))]
+        for script, g in pairs:
+            g = g or {}
+            dsh, bsh, msh = g.get("dash") or {}, g.get("bash") or {}, g.get("mvdan") or {}
+            if script in seen or "fin" not in dsh or "fin" not in bsh:
+                continue
+            names = set(re.findall(rb"export ([A-Za-z_][A-Za-z0-9_]*)=", bytes.fromhex(script)))
+            if any(n.decode() in ALL_SPECIAL for n in names):
+                continue
+            if not (dsh.get("fin") and dsh.get("clean")) and not (bsh.get("fin") and bsh.get("clean")):
+                continue  # both reference interpreters reject the script or report another effect: nothing is claimed for it
+            if dsh != bsh:
+                seen.add(script)
+                q["dash_and_bash_differ"] += 1
+                if len(q["scripts_dash_bash"]) < 10:
+                    q["scripts_dash_bash"].append(repr(bytes.fromhex(script))[2:-1][:200])
+            elif "fin" in msh and msh != dsh:
+                seen.add(script)
+                q["mvdan_differs_while_dash_and_bash_agree"] += 1
+                if len(q["scripts"]) < 10:
+                    q["scripts"].append(repr(bytes.fromhex(script))[2:-1][:200])
+    d["interpreter_quirks"] = q
+    # the probe: what each interpreter did with `export NAME=...`; compared with the lists of Model/Shell.v
+    m = _probe_matrix(cases, r["obs"])
+    sp = {"measured_special": {}, "listed_but_exact_in_this_run": {}, "not_listed_but_deviating": {}, "behaviour": {}}
+    for sh in ("dash", "bash", "mvdan"):
+        dev = sorted(n for n in m if m[n].get(sh, set()) - {"exact"} and not all(w.startswith("skip:") for w in m[n][sh]))
+        sp["measured_special"][sh] = dev
+        sp["listed_but_exact_in_this_run"][sh] = sorted(n for n in SPECIAL[sh] if n in m and n not in dev)
+        sp["not_listed_but_deviating"][sh] = sorted(n for n in dev if n not in SPECIAL[sh])
+    for n in sorted(m):
+        if any(m[n].get(sh, set()) - {"exact"} for sh in m[n]):
+            sp["behaviour"][n] = {sh: sorted(m[n][sh]) for sh in sorted(m[n])}
+    sp["ordinary_in_all_three"] = sorted(n for n in m if all(m[n].get(sh) == {"exact"} for sh in ("dash", "bash", "mvdan")))
+    d["special_names"] = sp
     return d
 
 
 def search(rng, info):
     """Targeted search when an obligation or the correspondence is broken: the corpus, every single byte, all
     two-letter words over the special alphabet, each also as a hidden secret."""
-    cases = [render_case([var(b"VALUE", v)], tag="corpus") for v in CORPUS]
+    cases = [render_case([var(b"VALUE", v)], tag="corpus") for v in CORPUS + PERCENT]
+    cases.append(render_case([var(b"TOKEN", b"s3cr3t-hunter2", secret=True, alt=b"0ther-value"), var(b"REGION", b"eu")],
+                             [var(b"KUBECONFIG", b"apiVersion: v1\n")], tag="corpus"))
     for b in range(1, 256):
         cases.append(render_case([var(b"B", bytes([b]))], tag="byte"))
     for a in ALPHA:
@@ -455,6 +868,8 @@ def search(rng, info):
 
 def model_show(c, o):
     l = line(c, o)
+    if c["op"] == "render" and isinstance(o.get("direct"), dict):
+        l = _render_part(c, o["direct"], "render")
     hdr = "From Verif Require Import Base.Bytes Base.Wire Corr.C17.\nOpen Scope string_scope.\n"
     term = ('match parse_sexp "%s" with Some x => match Corr.C17.decode x with Some c => Corr.C17.model_show c | None => [] end '
             '| None => [] end' % l)
